@@ -1285,6 +1285,52 @@ def r_val_auth(E):
     return res
 
 
+@rule("R-DEADLINK")
+def r_deadlink(E):
+    pm = E.pm
+    res = RuleResult("R-DEADLINK", "whoever reads the objects that hold a model object out of its list of link wrappers "
+                                   "(`contextual_modeling_obj_containers`) skips the wrappers whose container is None, as the "
+                                   "`modeling_obj_containers` property does: a wrapper stays in that list after its link is "
+                                   "gone (a replaced link, a refused or no-op assignment), so the most recent wrapper may well "
+                                   "be a dead one")
+    for mod, (rel, tree, src) in sorted(pm.modules.items()):
+        for fn in [f for f in ast.walk(tree) if isinstance(f, ast.FunctionDef)]:
+            gens = [(n, g) for n in ast.walk(fn) if isinstance(n, (ast.ListComp, ast.GeneratorExp, ast.SetComp, ast.DictComp))
+                    for g in n.generators] + [(n, n) for n in ast.walk(fn) if isinstance(n, ast.For)]
+            for host, g in gens:
+                if not any(isinstance(x, ast.Attribute) and x.attr == "contextual_modeling_obj_containers" for x in ast.walk(g.iter)):
+                    continue
+                if not isinstance(g.target, ast.Name):
+                    continue
+                v = g.target.id
+                body = [host.elt] if isinstance(host, (ast.ListComp, ast.GeneratorExp, ast.SetComp)) else (
+                    [host.key, host.value] if isinstance(host, ast.DictComp) else list(host.body))
+                reads = [x for b in body for x in ast.walk(b) if isinstance(x, ast.Attribute) and x.attr == "modeling_obj_container"
+                         and isinstance(x.value, ast.Name) and x.value.id == v]
+                if not reads:
+                    continue
+                res.instances += 1
+                tests = list(g.ifs) if isinstance(g, ast.comprehension) else [
+                    n.test for b in host.body for n in ast.walk(b) if isinstance(n, ast.If)]
+                alive = any(isinstance(c, ast.Compare) and len(c.ops) == 1 and isinstance(c.ops[0], (ast.IsNot, ast.NotEq))
+                            and norm(c.left) == f"{v}.modeling_obj_container" and isinstance(c.comparators[0], ast.Constant)
+                            and c.comparators[0].value is None for t in tests for c in ast.walk(t)) or any(
+                    norm(t) == f"{v}.modeling_obj_container" for t in tests)
+                pc = getattr(fn, "_parent", None)
+                q = f"{pc.name}.{fn.name}" if isinstance(pc, ast.ClassDef) else fn.name
+                if not alive:
+                    res.findings.append(Finding(
+                        "R-DEADLINK", f"{q} reads containers of dead wrappers",
+                        f"{q} takes `{v}.modeling_obj_container` for every wrapper of `{norm(g.iter)[:60]}` without skipping the "
+                        f"wrappers whose container is None: after a no-op re-assignment or a refused edit the most recent "
+                        f"wrapper is a detached one, so the object is reported as held by nobody (a storage without server: "
+                        f"its energy footprint becomes 'no value' and drops out of the total)", rel, reads[0].lineno, q))
+                elif len(res.samples) < 3:
+                    res.samples.append({"site": q, "verdict": "dead wrappers skipped"})
+    res.floor = 1
+    return res
+
+
 @rule("R-KINDCOVER")
 def r_kindcover(E):
     pm = E.pm
